@@ -27,6 +27,7 @@ TermLevel(tab, n, withRecv) ==
    \cup {[k |-> "delay", f |-> f] : f \in ThunksFrom(tab, n - 1, 0)}
    \cup UNION {{[k |-> "comb", a |-> a, b |-> b] : a \in tab[i], b \in tab[n - 1 - i]} : i \in 1..(n - 2)}
    \cup {[k |-> "for", c |-> c, p |-> p, body |-> b] : c \in Cs, p \in Ps, b \in tab[n - 1]}
+   \cup {[k |-> "brk", body |-> b] : b \in tab[n - 1]}          \* seq.Breakable(body)
 
 RECURSIVE BuildTerms(_, _, _)
 BuildTerms(tab, n, withRecv) ==
@@ -41,6 +42,7 @@ Spends(t) ==   \* every path through t spends budget, yields or returns
     [] t.k = "delay" -> HasEff(t.f.pre) \/ t.f.body.k = "ifret"
     [] t.k = "comb"  -> Spends(t.a)
     [] t.k = "for"   -> ~IsNone(t.c) \/ Spends(t.body)
+    [] t.k = "brk"   -> Spends(t.body)
     [] t.k = "sig"   -> t.t = "return"
 Guard(t) == Spends(t) \/ (t.k = "sig" /\ t.t = "break")
 WFThunk(f) == IF f.body.k = "ret" THEN WF(f.body.e) ELSE WF(f.body.a) /\ WF(f.body.b)
@@ -48,6 +50,7 @@ WF(t) ==
   CASE t.k \in {"bind", "bindrecv", "delay"} -> WFThunk(t.f)
     [] t.k = "comb" -> WF(t.a) /\ WF(t.b)
     [] t.k = "for"  -> (~IsNone(t.c) \/ ~IsNone(t.p) \/ Guard(t.body)) /\ WF(t.body)
+    [] t.k = "brk"  -> WF(t.body)
     [] OTHER -> TRUE
 
 TermsUpTo(n, withRecv) ==
